@@ -787,17 +787,15 @@ spif_dlinked_list_insert_at(spif_dlinked_list_t self, spif_obj_t obj, spif_listi
     }
     REQUIRE_RVAL((idx + 1) > 0, FALSE);
 
-    if (idx == 0 || SPIF_DLINKED_LIST_ITEM_ISNULL(self->head)) {
+    if (idx == 0) {
         return spif_dlinked_list_prepend(self, obj);
-    } else if (idx == (self->len - 1) || SPIF_DLINKED_LIST_ITEM_ISNULL(self->tail)) {
-        return spif_dlinked_list_append(self, obj);
-    } else if (idx > self->len) {
+    } else if (idx >= self->len) {
         for (i = self->len; i < idx; i++) {
             spif_dlinked_list_append(self, (spif_obj_t) NULL);
         }
         return spif_dlinked_list_append(self, obj);
     } else if (idx > (self->len / 2)) {
-        for (current = self->tail, i = self->len - 1; current->prev && i > idx; i--, current = current->prev);
+        for (current = self->tail, i = self->len; current->prev && i > idx; i--, current = current->prev);
         if (i != idx) {
             return FALSE;
         }
